@@ -52,6 +52,8 @@ PrimMembers(t) ==
     [] t.k = "number" -> {K(TNum, Qn(q)) : q \in MQS}
     [] t.k = "string" -> {StrV(s) : s \in MStrs}
 
+\* operands re-read after a call report what they reported before it (ia / ia2: digests of their full projections)
+Reread(e) == IF Has(e, "ia") /\ Has(e, "ia2") /\ e.ia # e.ia2 THEN {"C20.Immutable"} ELSE {}
 TakeN(S, n) == LET s == SetToSeq(S) IN {s[i] : i \in 1..(IF Len(s) < n THEN Len(s) ELSE n)}
 
 SubsetsUpTo(S, n) == {x \in SUBSET S : Cardinality(x) <= n}
